@@ -152,6 +152,10 @@ func (i *interpreter) checkBudget() {
 
 // decideBool makes a two-way decision on a symbolic condition.
 func (i *interpreter) decideBool(c *smt.Term) bool {
+	if dbgDecisions && len(i.p.decisions) <= 5 {
+		_, kn := i.knownLit(c)
+		debugf("[db %v prefix=%v] %s const=%v known=%v\n", i.p.decisions, i.p.prefix, c.String(), c.IsConst(), kn)
+	}
 	if c.IsConst() {
 		return c.Val == 1
 	}
@@ -190,10 +194,16 @@ func (i *interpreter) decideBool(c *smt.Term) bool {
 		if dv != 0 {
 			// decided without the solver
 		} else if rT, _ := i.sess.Check([]*smt.Term{c}, nil); rT == smt.Unsat {
+			if dbgDecisions {
+				debugf("[dec %v] %s: true infeasible\n", p.decisions, c.String())
+			}
 			p.res.Infeasible++
 			choice = false
 		} else {
 			rF, _ := i.sess.Check([]*smt.Term{i.tb.Not(c)}, nil)
+			if dbgDecisions {
+				debugf("[dec %v] %s: true=%v false=%v pc=%d\n", p.decisions, c.String(), rT, rF, len(p.pc))
+			}
 			if rF == smt.Unsat {
 				p.res.Infeasible++
 				choice = true
@@ -907,6 +917,7 @@ func (i *interpreter) panicString(p targetPanic) string {
 }
 
 var dbgCount int
+var dbgDecisions = os.Getenv("SYMGO_DBGDEC") != ""
 
 func debugf(format string, args ...interface{}) {
 	fmt.Fprintf(os.Stderr, format, args...)
